@@ -57,6 +57,18 @@ fn normalize_alias_keys(value: &mut toml::Value) {
     }
 }
 
+/// Key of a canonical path in the set of visited configs.
+///
+/// `to_string_lossy` maps every byte that is not UTF-8 to U+FFFD, so two different files whose
+/// paths differ only in such bytes would share a key and be reported as a cycle. A path that is
+/// not UTF-8 is keyed by its escaped rendering instead, which keeps the bytes apart (and cannot
+/// equal the key of a UTF-8 path: it starts with a quote, a canonical path does not).
+fn visited_key(canonical: &Path) -> String {
+    canonical
+        .to_str()
+        .map_or_else(|| format!("{canonical:?}"), str::to_string)
+}
+
 /// Resolves extends chains for config inheritance.
 ///
 /// This struct encapsulates all the logic for resolving `extends` fields in configs,
@@ -145,7 +157,7 @@ impl<'a, F: FileSystem> ExtendsResolver<'a, F> {
                     path: path.to_path_buf(),
                     source,
                 })?;
-        let key = canonical.to_string_lossy().to_string();
+        let key = visited_key(&canonical);
 
         if !visited.insert(key.clone()) {
             let mut chain: Vec<String> = visited.iter().cloned().collect();
